@@ -75,7 +75,10 @@ def _simple(fn: ast.FunctionDef) -> bool:
     return _tail_returns(body)
 
 
-def _memo_like(fn: ast.FunctionDef) -> bool:
+_NEW_FUNCS: Dict[str, ast.FunctionDef] = {}      # new private functions of the module being read
+
+
+def _memo_like(fn: ast.FunctionDef, _depth: int = 0) -> bool:
     """stores into an element of a container held by the object and returns a value: the
     hand-written memo / cache idiom.  Such a helper stays a call and a unit of its own - the
     memo rules read it there, and a look-up written into the caller would hide the value
@@ -83,12 +86,23 @@ def _memo_like(fn: ast.FunctionDef) -> bool:
     returns_value = any(isinstance(x, ast.Return) and x.value is not None for x in ast.walk(fn))
     if not returns_value:
         return False
+    return _stores_into_object(fn, 0)
+
+
+def _stores_into_object(fn: ast.FunctionDef, depth: int) -> bool:
     for x in ast.walk(fn):
         if isinstance(x, ast.Subscript) and isinstance(x.ctx, ast.Store):
             base = x.value
             while isinstance(base, ast.Subscript):
                 base = base.value
             if isinstance(base, ast.Attribute):
+                return True
+        if isinstance(x, ast.Call) and depth < 3:
+            # ... also through another new helper (the store extracted into a helper of its own)
+            callee = x.func.id if isinstance(x.func, ast.Name) else \
+                (x.func.attr if isinstance(x.func, ast.Attribute) else None)
+            other = _NEW_FUNCS.get(callee)
+            if other is not None and other is not fn and _stores_into_object(other, depth + 1):
                 return True
     return False
 
@@ -177,6 +191,12 @@ class _Renamer(ast.NodeTransformer):
         self.mapping = mapping
         self.subst = subst or {}
 
+    def visit_ExceptHandler(self, node):
+        self.generic_visit(node)
+        if node.name and node.name in self.mapping:
+            node.name = self.mapping[node.name]
+        return node
+
     def visit_Name(self, node):
         if node.id in self.subst and isinstance(node.ctx, ast.Load):
             return copy.deepcopy(self.subst[node.id])
@@ -247,10 +267,32 @@ class Inliner:
         out: List[ast.stmt] = []
         stored = {x.id for x in ast.walk(fn) if isinstance(x, ast.Name) and isinstance(x.ctx, (ast.Store, ast.Del))}
         subst: Dict[str, ast.AST] = {}
+        # `a, b = _helper(a, b, c)` where the helper returns its own parameters a, b: the helper
+        # updates the caller's variables; its statements then use the caller's names directly
+        # (no  a__h = a ... a = a__h  copies around the block)
+        inplace: Dict[str, str] = {}
+        rets_ = [x for x in ast.walk(fn) if isinstance(x, ast.Return)]
+        if isinstance(stmt, ast.Assign) and len(stmt.targets) == 1 and len(rets_) == 1 \
+                and rets_[0].value is not None:
+            rv, tg = rets_[0].value, stmt.targets[0]
+            r_elts = list(rv.elts) if isinstance(rv, ast.Tuple) else [rv]
+            t_elts = list(tg.elts) if isinstance(tg, (ast.Tuple, ast.List)) else [tg]
+            args_of = dict(bound)
+            if len(r_elts) == len(t_elts):
+                for r_, t_ in zip(r_elts, t_elts):
+                    if isinstance(r_, ast.Name) and isinstance(t_, ast.Name) and r_.id in args_of \
+                            and isinstance(args_of[r_.id], ast.Name) and args_of[r_.id].id == t_.id:
+                        inplace[r_.id] = t_.id
+        for p_, a_ in inplace.items():
+            mapping[p_] = a_
         for p, a in bound:
+            if p in inplace:
+                continue
             uses = sum(1 for x in ast.walk(fn) if isinstance(x, ast.Name) and x.id == p
                        and isinstance(x.ctx, ast.Load))
-            if p not in stored and (isinstance(a, (ast.Name, ast.Constant)) or uses == 1):
+            touches_inplace = any(isinstance(x, ast.Name) and x.id in inplace.values() for x in ast.walk(a))
+            if p not in stored and (isinstance(a, ast.Constant) or
+                                    (not touches_inplace and (isinstance(a, ast.Name) or uses == 1))):
                 # a plain name handed to a parameter that is never re-bound, or an expression
                 # handed to a parameter that is read once: no alias needed
                 subst[p] = a
@@ -263,6 +305,24 @@ class Inliner:
         def make(ret: ast.Return) -> List[ast.stmt]:
             value = ret.value
             if isinstance(stmt, ast.Assign):
+                if inplace and value is not None:
+                    # drop the  a = a  parts of the hand-back
+                    tg = stmt.targets[0]
+                    t_elts = list(tg.elts) if isinstance(tg, (ast.Tuple, ast.List)) else [tg]
+                    v_elts = list(value.elts) if isinstance(value, ast.Tuple) and \
+                        isinstance(tg, (ast.Tuple, ast.List)) else [value]
+                    if len(t_elts) == len(v_elts):
+                        keep = [(t_, v_) for t_, v_ in zip(t_elts, v_elts)
+                                if not (isinstance(t_, ast.Name) and isinstance(v_, ast.Name) and t_.id == v_.id)]
+                        if not keep:
+                            return []
+                        if len(keep) < len(t_elts):
+                            if len(keep) == 1:
+                                return [ast.copy_location(ast.Assign(
+                                    targets=[copy.deepcopy(keep[0][0])], value=keep[0][1]), stmt)]
+                            return [ast.copy_location(ast.Assign(
+                                targets=[ast.Tuple(elts=[copy.deepcopy(k[0]) for k in keep], ctx=ast.Store())],
+                                value=ast.Tuple(elts=[k[1] for k in keep], ctx=ast.Load())), stmt)]
                 return [ast.copy_location(ast.Assign(
                     targets=copy.deepcopy(stmt.targets),
                     value=value if value is not None else ast.Constant(value=None)), stmt)]
@@ -288,9 +348,11 @@ class Inliner:
 
         def new_private(name: str) -> bool:
             return name.startswith("_") and not name.startswith("__") and name not in known
+        _NEW_FUNCS.clear()
         for x in ast.walk(tree):
             if isinstance(x, ast.FunctionDef) and new_private(x.name):
                 self.new_names.add(x.name)
+                _NEW_FUNCS[x.name] = x
         mod_helpers = {f.name: f for f in tree.body if isinstance(f, ast.FunctionDef)
                        and new_private(f.name) and _simple(f)}
         cls_helpers: Dict[str, Dict[str, ast.FunctionDef]] = {}
